@@ -316,8 +316,8 @@ Definition slen (s : srd) : N := N.of_nat (length (swin s)).
 Definition sl_read_slice (s : srd) (n : N) : res (list byte * srd) :=
   if slen s <? n then Err EUnexpectedEof
   else Ok (firstn (N.to_nat n) (swin s), mkS (saddr s + n) (skipn (N.to_nat n) (swin s))).
-(* `self.slice = &[]`: a promoted constant; its address [dang] has nothing to do with the section *)
-Definition sl_empty (dang : N) (s : srd) : res (unit * srd) := Ok (tt, mkS dang []).
+(* `self.slice = &self.slice[..0]`: keeps the position (repaired in fd639ac; it used to be `&[]`) *)
+Definition sl_empty (s : srd) : res (unit * srd) := Ok (tt, mkS (saddr s) (firstn 0 (swin s))).
 Definition sl_truncate (s : srd) (n : N) : res (unit * srd) :=
   if slen s <? n then Err EUnexpectedEof
   else Ok (tt, mkS (saddr s) (firstn (N.to_nat n) (swin s))).
@@ -335,17 +335,17 @@ Definition sl_split (s : srd) (n : N) : res (srd * srd) :=
 Definition sl_to_string (s : srd) : res (list byte) :=
   if utf8_valid (swin s) then Ok (swin s) else Err EBadUtf8.
 
-Definition sl_req (dbg : bool) (dang : N) : reader_req srd :=
-  mkReq srd slen (mprim (sl_empty dang)) (fun n => mprim (fun s => sl_truncate s n))
+Definition sl_req (dbg : bool) : reader_req srd :=
+  mkReq srd slen (mprim sl_empty) (fun n => mprim (fun s => sl_truncate s n))
         (sl_offset_from dbg) saddr (sl_lookup_offset_id dbg) sl_find
         (fun n => mprim (fun s => sl_skip s n)) (fun n => mprim (fun s => sl_split s n))
         swin sl_to_string (fun n => mprim (fun s => sl_read_slice s n)).
-Definition sl_impl (dbg : bool) (dang : N) : reader_impl srd := default_impl (sl_req dbg dang).
+Definition sl_impl (dbg : bool) : reader_impl srd := default_impl (sl_req dbg).
 
-Definition sstep (dbg be : bool) (dang : N) (root s : srd) (op : cop) : srd * res (oval srd) :=
-  gstep (sl_impl dbg dang) be root s op.
-Definition srun (dbg be : bool) (dang : N) (root s : srd) (ops : list cop) :=
-  grun (sl_impl dbg dang) be root s ops.
+Definition sstep (dbg be : bool) (root s : srd) (op : cop) : srd * res (oval srd) :=
+  gstep (sl_impl dbg) be root s op.
+Definition srun (dbg be : bool) (root s : srd) (ops : list cop) :=
+  grun (sl_impl dbg) be root s ops.
 
 (* what an EndianSlice over the same window looks like *)
 Definition abs (c : cur) : srd := mkS (ptr c) (bytes c).
